@@ -14,12 +14,12 @@
    proved per run by TrigMat obligations on the traced matrices (k <= 6), compared numerically beyond.
 
    NOT PROVED (named honestly):
-   - hw_encoder_ok with OPTIMISED controls for all n (ring level: proved for all n with the full control sets,
-     hw_encoder_ok_full_controls; with optimize_controls=True the chain_ok condition is checked for n <= 10 only); binary-encoder amplitudes; that the real angle
+   - (hw_encoder_ok is proved for all n, k and both control settings at ring level; its complex-data RZ layers
+     and the lexicographic data permutation are only tested); binary-encoder amplitudes; that the real angle
      formulas (acos/atan2/norms) satisfy the load equations (covered by the data-level tests, tolerance 1e-10). *)
-From Coq Require Import List Bool Arith Lia Ring ZArith Reals.
+From Coq Require Import List Bool Arith Lia Ring ZArith Reals Permutation.
 From Coquelicot Require Import Complex.
-From QV Require Import Base.Mat Base.Cis C20.Model C20.Proofs C20.ProofsQFT C20.ProofsPS C20.ProofsQFTMat C20.QFTComplex C20.ProofsAssoc C20.ProofsEhrlich C20.ProofsTree C20.ProofsHW C20.ProofsEhrlichG3 C20.ProofsEhrlichG4 C20.ProofsEhrlichG5 C20.ProofsHWAll.
+From QV Require Import Base.Mat Base.Cis C20.Model C20.Proofs C20.ProofsQFT C20.ProofsPS C20.ProofsQFTMat C20.QFTComplex C20.ProofsAssoc C20.ProofsEhrlich C20.ProofsTree C20.ProofsHW C20.ProofsEhrlichG3 C20.ProofsEhrlichG4 C20.ProofsEhrlichG5 C20.ProofsHWAll C20.ProofsHWOpt1 C20.ProofsHWOpt2 C20.ProofsHWOpt3 C20.ProofsHWOpt4 C20.ProofsLayers.
 Import ListNotations.
 
 (* ---------------------------------------------------------------- comp_basis_encoder (all n, all bit strings) *)
@@ -284,15 +284,19 @@ Theorem hw_chain_ok_loads :
 Proof. exact run_hw_spec. Qed.
 Print Assumptions hw_chain_ok_loads.
 
-(* BOUNDED (1 <= k < n <= 10, both optimize_controls settings): the real gate skeleton (Model.hw_gates, tied to
-   hamming_weight_encoder by the structural correspondence) satisfies chain_ok along the Ehrlich walk, hence
-   the amplitude of the j-th walk string is the j-th entry of the spread; with unary_diagonal_ok_ring
-   (c_j N_j = x_j, s_j N_j = N_{j+1}) that is  amplitude * ||x|| = datum.  Complex data (the RZ layers) and
-   the lexicographic re-ordering of the data are NOT in this theorem (data-level tests). *)
-Theorem hw_encoder_ok_bounded :
+(* ALL n and k, qubit coordinates, the control sets the code EMITS (Model.hw_gates = mirror q = n-1-p, sort, and the
+   optimisation mask `controls[k >= indices]`; tied to hamming_weight_encoder by the structural correspondence),
+   both optimize_controls settings: the emitted chain satisfies chain_ok, hence the amplitude of the j-th walk
+   string is the j-th entry of the spread and every other basis state has amplitude 0; with
+   unary_diagonal_ok_ring (c_j N_j = x_j, s_j N_j = N_{j+1}) that is amplitude * ||x|| = datum.
+   Why the reduced controls suffice: the mask drops, at move number idx, the J controls on the array positions
+   0..J-1 where J = #{j : idx < binom(n-j, k-j) - 1}; by the block structure of the walk (prefix_block) every string
+   loaded up to then has ones there, so the reduced gate is active on a loaded string only if the full one is.
+   Complex data (the RZ layers) and the lexicographic re-ordering of the data are NOT in this theorem (tests). *)
+Theorem hw_encoder_ok :
   forall (R : Type) (r0 r1 : R) (radd rmul rsub : R -> R -> R) (ropp : R -> R),
   ring_theory r0 r1 radd rmul rsub ropp (@eq R) ->
-  forall n k opt, n <= 10 -> 1 <= k < n ->
+  forall n k opt, 1 <= k < n ->
   exists bs gs, hw_texts n k = Some bs /\ hw_cgates n k opt = Some gs /\
     forall (cs : list (R * R)) (r : R), length cs = length gs ->
     forall b0, hd_error bs = Some b0 ->
@@ -300,10 +304,14 @@ Theorem hw_encoder_ok_bounded :
       run_hw R radd rmul rsub gs cs (fun y => if bits_eqb b0 y then r else r0) x
       = amp_of_list R r0 (rev (combine bs (spread R rmul cs r))) x.
 Proof.
-  intros R r0 r1 radd rmul rsub ropp Rring n k opt Hn Hk.
-  apply (hw_encoder_chain R r0 r1 radd rmul rsub ropp Rring). now apply hw_ok_bounded.
+  intros R r0 r1 radd rmul rsub ropp Rring n k opt Hk.
+  apply (hw_encoder_chain R r0 r1 radd rmul rsub ropp Rring). now apply hw_ok_all.
 Qed.
-Print Assumptions hw_encoder_ok_bounded.
+Print Assumptions hw_encoder_ok.
+
+Theorem hw_emitted_chain_ok : forall n k opt, 1 <= k < n -> hw_ok n k opt = true.
+Proof. exact hw_ok_all. Qed.
+Print Assumptions hw_emitted_chain_ok.
 
 (* ALL n, full control sets (optimize_controls=False: the variant binary_encoder uses), array coordinates
    (position p of the bit string = qubit n-1-p): along the Ehrlich walk from ANY consecutive-ones string the gates
@@ -326,6 +334,37 @@ Print Assumptions hw_encoder_ok_full_controls.
 
 Example hw_ok_example : hw_ok 5 2 true = true /\ hw_cgates 4 2 true = Some [mkCG 2 0 []; mkCG 0 1 []; mkCG 3 2 [1]; mkCG 1 0 [2]; mkCG 2 1 [0]].
 Proof. split; vm_compute; reflexivity. Qed.
+
+(* ---------------------------------------------------------------- entangling_layer, phase_encoder, binary_encoder (hopf): all n *)
+(* every gate of every architecture (diagonal, even_layer, odd_layer, shifted, next_nearest, pyramid, v, x; with or
+   without closed boundary) acts on two distinct qubits of the register *)
+Theorem entangling_layer_ok : forall a n closed, 2 <= n ->
+  forall pq, In pq (ent_pairs a n closed) -> fst pq < n /\ snd pq < n /\ fst pq <> snd pq.
+Proof. exact ent_pairs_ok. Qed.
+Print Assumptions entangling_layer_ok.
+
+Theorem entangling_shifted_is_diagonal : forall n closed,
+  Permutation (ent_pairs AShifted n closed) (ent_pairs ADiagonal n closed).
+Proof. exact ent_shifted_perm. Qed.
+Print Assumptions entangling_shifted_is_diagonal.
+
+Theorem entangling_layer_sizes : forall n, 2 <= n ->
+  length (ent_pairs ADiagonal n false) = n - 1 /\ length (ent_pairs ADiagonal n true) = n /\
+  length (ent_pairs ANextNearest n false) = n - 2 /\ length (ent_pairs AV n false) = 2 * (n - 1) - 1.
+Proof. exact ent_lengths. Qed.
+Print Assumptions entangling_layer_sizes.
+
+Theorem phase_encoder_ok : forall (D : Type) (data : list D) q d,
+  nth_error (phase_gates data) q = Some (q, d) <-> nth_error data q = Some d.
+Proof. intros D. exact (@phase_gates_spec D). Qed.
+Print Assumptions phase_encoder_ok.
+
+Theorem binary_hopf_rotations_fully_controlled : forall n lvl j, lvl < n ->
+  exists anti ctrl,
+    hopf_gate n lvl j = map (fun q => (0, [q])) anti ++ [(1, lvl :: sort (ctrl ++ anti))] ++ map (fun q => (0, [q])) anti /\
+    Permutation (ctrl ++ anti) (seq 0 lvl ++ seq (S lvl) (n - S lvl)).
+Proof. exact hopf_gate_shape. Qed.
+Print Assumptions binary_hopf_rotations_fully_controlled.
 
 (* ---------------------------------------------------------------- RBS chains on unary amplitudes (all n, ring level) *)
 Section Unary.
